@@ -46,6 +46,7 @@ type Choices struct {
 	UPFIP       [][]byte
 	AmbrDL, AmbrUL int64
 	QosRulesLen int
+	RejectSession int  // k > 0: the SMF rejects the PDU session establishment of UE number k-1 (0: accepts all)
 	SessAmbr    []byte // Session-AMBR contents of the accept (unit DL, value DL, unit UL, value UL); nil = 1000 Mbps both ways
 	AcceptOpt   uint // optional IEs of PDU SESSION ESTABLISHMENT ACCEPT in front of the PDU address: bit0 5GSM cause; bit1: IEs of later releases (17, 18, 77) at the end; bit2: SSC mode 3
 	PerUE       int  // how the 5G-AKA vector varies from UE to UE: 0 fresh RAND, same SQN; 1 same RAND, SQN+k; 2 fresh RAND, SQN+k; 3 same RAND, same SQN
@@ -126,6 +127,9 @@ type AMF struct {
 	byRan map[int64]*UE
 	byAmf map[int64]*UE
 	Viol  []Violation
+	// RejectIssued: the SMF rejected a session establishment in this conversation (how the emulator ends is then its own
+	// business; what it sends afterwards is still judged)
+	RejectIssued bool
 	// model coverage
 	States      map[string]bool
 	Transitions map[string]bool
@@ -930,6 +934,15 @@ func (a *AMF) onULNASTransport(u *UE, plain []byte) [][]byte {
 			if !bytes.Equal(s.Value, want) {
 				a.violate("session/s-nssai", "S-NSSAI %x, configured %x", s.Value, want)
 			}
+		}
+		if a.Ch.RejectSession == u.Index+1 {
+			// the SMF cannot serve this session (5GSM cause #26 insufficient resources): PDU SESSION ESTABLISHMENT REJECT in a
+			// DL NAS TRANSPORT; the UE has no session, and nothing that needs one may follow for it
+			a.RejectIssued = true
+			rej := []byte{0x2e, psi, sm[2], 0xc3, 0x1a}
+			dl := append([]byte{0x7e, 0x00, 0x68, 0x01, 0x00, byte(len(rej))}, rej...)
+			dl = append(dl, 0x12, psi)
+			return [][]byte{a.dlNAS(u, a.protect(u, dl, 2))}
 		}
 		u.PSI, u.PTI, u.Sess = psi, sm[2], seSetupSent
 		return [][]byte{a.setupRequest(u)}
